@@ -12,6 +12,10 @@ the names read_raw_file imports; custom pickling keeps every attribute (C06.d).
 Round 3: every Monitor subclass reaches the base __call__ exactly once per call
 on every path with the caller's (x, y, id); listify returns its argument itself
 only when it is not iterable.
+Round 4: read_import evicts the imported parameter file (repair 9368d4c); 0-d
+array costs are scaled as scalars (repair f13ad96); converted files get k
+through write_monitor (repair 885bac7); read_raw_file(iter=True) sizes the ids
+by the number of costs.
 NOT decided: textual round trip of particular float/array values.
 """
 import ast
